@@ -45,12 +45,27 @@ func (fc *FuncCtx) monitorEnter(fr *Frame, st *State, owner types.Type, field, r
 	}
 	for _, inv := range invs {
 		keys := fc.eng.protectKeys(inv)
+		// monotone ghost flags (`protects monotone T.f`): other threads may set them, never clear them
+		type mono struct{ key, before string }
+		var monos []mono
+		for _, p := range inv.Protects {
+			p = strings.TrimSpace(p)
+			if strings.HasPrefix(p, "monotone ") {
+				k := "X!" + strings.TrimSpace(p[9:])
+				monos = append(monos, mono{k, fc.compTerm(st, k, "(Array Int Bool)")})
+				keys = append(keys, k)
+			}
+		}
 		if len(keys) > 0 {
 			ms := &ModSet{keys: map[string]bool{}}
 			for _, k := range keys {
 				ms.keys[k] = true
 			}
 			fc.havocKeys(st, ms.matcher(), "")
+		}
+		for _, m := range monos {
+			after := fc.compTerm(st, m.key, "(Array Int Bool)")
+			fc.u.emit("(assert (forall ((r Int)) (! (=> (select " + m.before + " r) (select " + after + " r)) :pattern ((select " + after + " r)))))")
 		}
 	}
 	for _, inv := range invs {
